@@ -3,7 +3,7 @@
 //! view (which may again contain boundaries and async components), rendered with the real `render_to_string`
 //! (MODE = sync), `render_to_string_await_suspense` (blocking) or `render_to_string_stream` (streaming) while the
 //! gates are opened in the given order.
-//! VIEW = (text xHEX) | (el xTAG (VIEW ...)) | (sus (FALLBACK ...) (CHILD ...)) | (async G (RESOLVED ...))
+//! VIEW = (text xHEX) | (el xTAG (VIEW ...)) | (sus (FALLBACK ...) (CHILD ...)) | (async G (RESOLVED ...)) | (dyn (VIEW ...))
 //! Output, one line per event: `sync <hex>` | `<step> pending` | `<step> done <hex>` | `<step> chunk <hex>` |
 //! `<step> end`; step 0 = before any gate is opened, step k = after the k-th gate of the schedule.
 use std::cell::RefCell;
@@ -24,6 +24,8 @@ enum AView {
     El(String, Vec<AView>),
     Sus(Vec<AView>, Vec<AView>),
     Async(u32, Vec<AView>),
+    /// a dynamic block `(move || view)`: its content is built inside an effect scope
+    Dyn(Vec<AView>),
 }
 
 fn parse(s: &Sx) -> AView {
@@ -33,6 +35,7 @@ fn parse(s: &Sx) -> AView {
         "el" => AView::El(unhex(l[1].atom()), l[2].list().iter().map(parse).collect()),
         "sus" => AView::Sus(l[1].list().iter().map(parse).collect(), l[2].list().iter().map(parse).collect()),
         "async" => AView::Async(l[1].num(), l[2].list().iter().map(parse).collect()),
+        "dyn" => AView::Dyn(l[1].list().iter().map(parse).collect()),
         x => panic!("bad async view {x}"),
     }
 }
@@ -72,6 +75,10 @@ fn build(v: &AView, gates: &Gates) -> View {
                 Suspense(SuspenseProps::builder().fallback(move || build_all(&fb, &g1)).children(children).build())
             })
         }
+        AView::Dyn(ch) => {
+            let (ch, gates) = (ch.clone(), gates.clone());
+            View::from_dynamic(move || build_all(&ch, &gates))
+        }
         AView::Async(g, res) => {
             let rx = gates.borrow_mut().remove(g).unwrap_or_else(|| panic!("gate {g} used twice"));
             let (res, gates) = (res.clone(), gates.clone());
@@ -93,6 +100,7 @@ fn gates_of(v: &AView, out: &mut Vec<u32>) {
             fb.iter().for_each(|c| gates_of(c, out));
             ch.iter().for_each(|c| gates_of(c, out));
         }
+        AView::Dyn(ch) => ch.iter().for_each(|c| gates_of(c, out)),
         AView::Async(g, res) => {
             out.push(*g);
             res.iter().for_each(|c| gates_of(c, out));
